@@ -15,7 +15,7 @@ def NT (D : Int × Bool) (s : Eng M) : Prop := s.hasTable = false ∧ (s.st.dept
 def NoCancel (o : Oracle M) : Prop := ∀ l e, o.cancel l e = false
 
 /-- `MakePrecise` + no symmetry de-duplication -/
-structure Precise (cfg : Cfg) : Prop where
+structure Precise (cfg : SOpts) : Prop where
   nn : cfg.noNullMove = true
   nr : cfg.noReduceSlides = true
   mc : cfg.multiCut = false
@@ -256,7 +256,7 @@ theorem Live.child {g : Game P M} (hg : GameOK g) {depth : Int} {p : P} (hl : Li
     rw [hd1]
     exact hall (m', c) (mem_kids.mpr ⟨hm', hap'⟩)
 
-theorem pvNode_ok [DecidableEq M] {g : Game P M} (hg : GameOK g) {cfg : Cfg} (hpr : Precise cfg)
+theorem pvNode_ok [DecidableEq M] {g : Game P M} (hg : GameOK g) {cfg : SOpts} (hpr : Precise cfg)
     {o : Oracle M} (hnc : NoCancel o) (hord : OrderOK o) (frame : Bool)
     {cpv : PvFn P M} {czw : ZwFn P M} (hp : PvOK g cpv) (hz : ZwOK g czw) :
     PvOK g (pvNode g cfg o frame cpv czw) := by
@@ -400,20 +400,20 @@ theorem zwStore_nt (o : Oracle M) (k : H) (depth α : Int) (a : ZwAcc M) {D : In
     zwStore o k depth α a s = .ok ((some a.best, if a.didCut then α + 1 else α), s) := by
   unfold zwStore; rw [ttPut_nt o h]; rfl
 
-theorem nullMove_precise {g : Game P M} {cfg : Cfg} (hpr : Precise cfg) (czw : ZwFn P M) (p : P) (ply : Nat)
+theorem nullMove_precise {g : Game P M} {cfg : SOpts} (hpr : Precise cfg) (czw : ZwFn P M) (p : P) (ply : Nat)
     (depth α : Int) (s : Eng M) : nullMove g cfg czw p ply depth α s = .ok (none, s) := by
   unfold nullMove nullMoveOK; rw [hpr.nn]; rfl
 
-theorem slideReduction_precise {g : Game P M} {cfg : Cfg} (hpr : Precise cfg) (p : P) (ply : Nat)
+theorem slideReduction_precise {g : Game P M} {cfg : SOpts} (hpr : Precise cfg) (p : P) (ply : Nat)
     (depth : Int) (s : Eng M) : slideReduction g cfg p ply depth s = .ok (depth, s) := by
   unfold slideReduction; rw [hpr.nr]; rfl
 
-theorem multiCut_precise [DecidableEq M] {g : Game P M} {cfg : Cfg} (hpr : Precise cfg) (o : Oracle M)
+theorem multiCut_precise [DecidableEq M] {g : Game P M} {cfg : SOpts} (hpr : Precise cfg) (o : Oracle M)
     (czw : ZwFn P M) (p : P) (mg : MG M) (α : Int) (cut : Bool) (s : Eng M) :
     multiCut g cfg o czw p mg α cut s = .ok (none, s) := by
   unfold multiCut; rw [hpr.mc]; rfl
 
-theorem zwNode_ok [DecidableEq M] {g : Game P M} (hg : GameOK g) {cfg : Cfg} (hpr : Precise cfg)
+theorem zwNode_ok [DecidableEq M] {g : Game P M} (hg : GameOK g) {cfg : SOpts} (hpr : Precise cfg)
     {o : Oracle M} (hnc : NoCancel o) (hord : OrderOK o) (frame : Bool)
     {czw : ZwFn P M} (hz : ZwOK g czw) :
     ZwOK g (zwNode g cfg o frame czw) := by
@@ -495,7 +495,7 @@ theorem zwNode_ok [DecidableEq M] {g : Game P M} (hg : GameOK g) {cfg : Cfg} (hp
 
 /-! ### the recursion -/
 
-theorem search_ok [DecidableEq M] {g : Game P M} (hg : GameOK g) {cfg : Cfg} (hpr : Precise cfg)
+theorem search_ok [DecidableEq M] {g : Game P M} (hg : GameOK g) {cfg : SOpts} (hpr : Precise cfg)
     {o : Oracle M} (hnc : NoCancel o) (hord : OrderOK o) :
     ∀ n, PvOK g (search g cfg o n).1 ∧ ZwOK g (search g cfg o n).2 := by
   intro n
